@@ -367,43 +367,32 @@ def concentric(ctx, col):
         other = {"1": "2", "2": "1"}.get(k)
         bs = [norm_src(s) for s in b]
         want = [f"c2, r2 = ({fc}.c{other}, {fc}.r{other})", f"c2, r2 = {fc}.c{other}, {fc}.r{other}"]
-        col.judge(k is not None and len(bs) == 1, okt and bs[0] in want, R_, qual, d.loc(b[0]),
-                  f"sphere on end {k}: centre and radius are matched against the same end, and (c2, r2) is the other end",
-                  bs[0] if bs else "", f"arm testing end {k}: test `{t}`, binding `{bs[0] if bs else ''}`; expected the other end "
-                  f"`c2, r2 = {fc}.c{other}, {fc}.r{other}`", stmt=f"pair:{k}")
+        import re as _re
+        mm = _re.fullmatch(rf"c2, r2 = \(?{fc}\.c([12]), {fc}\.r([12])\)?", bs[0]) if len(bs) == 1 else None
+        if k is not None and okt and mm is not None:
+            col.check(mm.group(1) == other and mm.group(2) == other, R_, qual, d.loc(b[0]),
+                      f"sphere on end {k}: (c2, r2) is the other end", bs[0],
+                      f"sphere matched on end {k}, but `{bs[0]}` takes centre from end {mm.group(1)} and radius from end {mm.group(2)}: "
+                      f"the far radius of the frustum must be r{other}", stmt=f"pair:{k}", definite=True)
+        else:
+            col.judge(k is not None and len(bs) == 1, okt and bs[0] in want, R_, qual, d.loc(b[0]),
+                      f"sphere on end {k}: centre and radius are matched against the same end, and (c2, r2) is the other end",
+                      bs[0] if bs else "", f"arm testing end {k}: test `{t}`, binding `{bs[0] if bs else ''}`; expected the other end "
+                      f"`c2, r2 = {fc}.c{other}, {fc}.r{other}`", stmt=f"pair:{k}")
     ok_tail = isinstance(tail, list) and len(tail) == 1 and isinstance(tail[0], ast.Raise)
     col.check(ok_tail, R_, qual, d.loc(ladder), "a sphere on neither end is rejected (no closed form)", "",
               "the non-concentric case does not raise", stmt="pair:else")
     # geometry of the exit point
-    tx = [src[i] for i in range(len(body))]
-    def has(*alts):
-        return any(a in tx for a in alts)
-    col.check(has("up = (c2 - c1) / np.linalg.norm(c2 - c1)"), R_, qual, d.loc(), "axis direction = unit vector from the sphere's end to the other end",
-              "", "no `up = (c2 - c1) / |c2 - c1|`", stmt="up")
-    col.check(has("v = find_unit_vector_on_plane(up)"), R_, qual, d.loc(), "v is a unit vector perpendicular to the axis", "",
-              "no `v = find_unit_vector_on_plane(up)`", stmt="v")
-    calls = [c for c in own_nodes(d) if isinstance(c, ast.Call) and dotted(c.func) == "find_sphere_line_intersection"]
-    okc = False
-    if len(calls) == 1 and len(calls[0].args) == 4:
-        env = {k: S(k) for k in ("c1", "c2", "r1", "r2", "v")}
-        try:
-            a = [Translator(env).tr(x) for x in calls[0].args]
-            okc = a[0].same(S("c1")) and a[1].same(S("r1")) and a[2].same(S("c1") + S("r1") * S("v")) \
-                and a[3].same(S("c2") + S("r2") * S("v"))
-        except NotPolynomial:
-            okc = False
-    col.judge(len(calls) == 1, okc, R_, qual, d.loc(calls[0]) if calls else d.loc(),
-              "the side line runs from the rim at the sphere's end (c1 + r1 v) to the rim at the other end (c2 + r2 v), "
-              "intersected with the sphere (c1, r1)", norm_src(calls[0]) if calls else "",
-              f"`{norm_src(calls[0]) if calls else ''}` is not the cone's side against the sphere", stmt="slant")
-    col.check(has("t, p = max(intersections, key=lambda x: x[0])"), R_, qual, d.loc(), "the exit point is the intersection with the larger line parameter", "",
-              "exit point is not the max-t intersection", stmt="exit")
-    col.check(has("M = project_point_on_line(c1, up, p)"), R_, qual, d.loc(), "M = foot of the exit point on the axis", "",
-              "no `M = project_point_on_line(c1, up, p)`", stmt="M")
-    col.check(has("h1 = np.linalg.norm(M - c1).item()", "h1 = np.linalg.norm(c1 - M).item()"), R_, qual, d.loc(),
-              "h1 = axial height of the exit point above the sphere's centre", "", "h1 is not |M - c1|", stmt="h1")
-    col.check(has("r3 = np.linalg.norm(M - p).item()", "r3 = np.linalg.norm(p - M).item()"), R_, qual, d.loc(),
-              "r3 = radius of the cone at the exit height", "", "r3 is not |M - p|", stmt="r3")
+    col.text_group(R_, qual, d, [
+        ("axis direction = unit vector from the sphere's end to the other end", ["up = (c2 - c1) / np.linalg.norm(c2 - c1)"], "up"),
+        ("v is a unit vector perpendicular to the axis", ["v = find_unit_vector_on_plane(up)"], "v"),
+        ("the side line runs from the rim at the sphere's end (c1 + r1 v) to the rim at the other end (c2 + r2 v), against the sphere (c1, r1)",
+         ["intersections = find_sphere_line_intersection(c1, r1, c1 + r1 * v, c2 + r2 * v)"], "slant"),
+        ("the exit point is the intersection with the larger line parameter", ["t, p = max(intersections, key=lambda x: x[0])"], "exit"),
+        ("M = foot of the exit point on the axis", ["M = project_point_on_line(c1, up, p)"], "M"),
+        ("h1 = axial height of the exit point above the sphere's centre", ["h1 = np.linalg.norm(M - c1).item()", "h1 = np.linalg.norm(c1 - M).item()"], "h1"),
+        ("r3 = radius of the cone at the exit height", ["r3 = np.linalg.norm(M - p).item()", "r3 = np.linalg.norm(p - M).item()"], "r3"),
+    ], fixed=("find_unit_vector_on_plane", "find_sphere_line_intersection", "project_point_on_line"))
     # --- cell table --------------------------------------------------------
     # the statements after the role bindings, with the geometric ones replaced by symbols
     skip_prefix = ("h = ", "c1, r1 = ", "up = ", "v = ", "intersections = ", "t, p = ", "M = ", "h1 = ", "r3 = ")
@@ -496,6 +485,18 @@ def concentric(ctx, col):
 def helpers(ctx, col):
     repo = ctx.repo
     R_ = "R-LINE"
+    u = repo.get_def(f"{GEO}.find_unit_vector_on_plane")
+    nparam = u.params[0]
+    col.text_group(R_, u.qualname, u, [
+        ("the result is the cross product of a helper direction with the normal ...", ["u = np.cross(r, normal_vec3)", "u = np.cross(normal_vec3, r)"], "cross"),
+        ("... normalised", ["u /= np.linalg.norm(u)", "u = u / np.linalg.norm(u)"], "unit"),
+    ], fixed=(nparam,))
+    for c in own_nodes(u):
+        if isinstance(c, ast.Call) and (dotted(c.func) or "").rsplit(".", 1)[-1] in ("argmin", "argmax") and c.args \
+                and isinstance(c.args[0], ast.Name) and c.args[0].id == nparam:
+            col.bad(R_, u.qualname, u.loc(c), "the helper direction is never parallel to the normal, whatever its signs",
+                    f"`{norm_src(c)}` picks the coordinate by the SIGNED components of the normal: for a normal along a negative axis it picks "
+                    f"that very axis, the cross product vanishes and the result is NaN (use the absolute values)", stmt="helper-axis", definite=True)
     d = repo.get_def(f"{GEO}.find_sphere_line_intersection")
     asg = {}
     for s in d.node.body:
